@@ -28,6 +28,8 @@ def _truth(f):
 
 def confirm(mod, failure):
     """-> ('confirmed'|'unconfirmed'|'unreachable'|'error', detail)"""
+    from . import hidden
+    hidden.restore()
     if hasattr(mod, 'replay_confirm'):
         return mod.replay_confirm(failure)
     assert not inject._installed[0], "replay must run on the real code"
